@@ -80,6 +80,25 @@ def run(ctx):
             bad = PR.corrupt_interior(rng, data)
             if bad is not None:
                 inputs.append((prep, bad, "node-corruption"))
+        for _ in range(ctx.scale(4, 12)):
+            bad = PR.corrupt_text(rng, data)
+            if bad is not None:
+                inputs.append((prep, bad, "non-utf8-content"))
+        alt = PR.reencode_lenforms(rng, data)
+        if alt is not None:
+            inputs.append((prep, alt, "length-forms"))
+    for prep in PR.PREPS:
+        for kind in ("extResp", "bindResp", "searchDone", "bindReq", "extReq", "unbind"):
+            for _ in range(ctx.scale(3, 30)):
+                op = gen.g_op(rng, kind, depth=1)
+                if kind == "extResp" and rng.random() < 0.7:
+                    op["name"] = C.tx(PR.NOTICE)
+                data = C.msg_from_json({"id": rng.choice([0, 1, 2, 3]), "op": op, "controls": []}).pack(M.PackingOptions())
+                inputs.append((prep, data, "session-kinds"))
+                for _ in range(3):
+                    bad = PR.corrupt_text(rng, data)
+                    if bad is not None:
+                        inputs.append((prep, bad, "non-utf8-content"))
     notifs = []
     samples = []
     for prep, data, kind in inputs:
